@@ -202,7 +202,8 @@ def handleRoots (sh len vs m eigs : Sx) : Sx :=
       let p : PCell Float := ⟨c, mask.at shape i⟩
       let eig : List (Float × Float) := ((eigs[n]?).bind pairs?).getD []
       -- the row the model would hand to LAPACK (recorded for comparison) and the roots
-      let row : List Float := if len ≤ 3 then [] else companionRow (prepHigh p).2.2
+      -- what is computed underneath a masked polynomial is not observable (C03): no row is reported there
+      let row : List Float := if len ≤ 3 || p.m then [] else companionRow (prepHigh p).2.2
       match roots (fun _ => eig) p with
       | some r => Sx.list [.list (row.map fSx), outCells r]
       | none => .atom "ValueError"
